@@ -19,7 +19,7 @@
 
    Cost model: Z and Q arithmetic under vm_compute is quadratic in the bit
    length and gcd is the most expensive step, so scalars are NOT reduced after
-   every operation.  `qplus'` adds numerators when the denominators are equal
+   every operation.  `qplus'` adds numerators when the denominators are equal or one divides the other
    (the harness writes each input matrix over one common power-of-two
    denominator, and `qinv` returns all entries over the determinant), skips
    zeros, and only otherwise falls back to Qred (x + y).  All of this changes
@@ -28,6 +28,7 @@
    Dimensions are phantom, except for the three creating operations
    (identity, constant, transpose). *)
 From Coq Require Import List QArith Qabs Bool Arith.
+From Bignums Require Import BigZ.
 From IT Require Import Matrix.MxOps.
 Import ListNotations.
 Open Scope Q_scope.
@@ -38,11 +39,20 @@ Definition qmat := list (list Q).
 (* ---- scalars ----------------------------------------------------------- *)
 Definition qz (x : Q) : bool := match Qnum x with Z0 => true | _ => false end.
 
-(* x + y; same value as Qplus *)
+(* x + y; same value as Qplus.  No gcd unless the denominators are unrelated:
+   equal denominators -> add numerators; one denominator divides the other
+   (always the case for dyadic inputs, and for  alpha alpha^T - J^-1  where the
+   denominators are d^2 c and d) -> scale one numerator; otherwise Qred. *)
 Definition qplus' (x y : Q) : Q :=
   if qz x then y else if qz y then x else
-  if Pos.eqb (Qden x) (Qden y) then (Qnum x + Qnum y) # (Qden x)
-  else Qred (x + y).
+  let dx := Qden x in let dy := Qden y in
+  if Pos.eqb dx dy then (Qnum x + Qnum y) # dx
+  else if Pos.leb dx dy then
+    let (q, r) := Z.div_eucl (Zpos dy) (Zpos dx) in
+    if Z.eqb r 0 then (Qnum x * q + Qnum y) # dy else Qred (x + y)
+  else
+    let (q, r) := Z.div_eucl (Zpos dx) (Zpos dy) in
+    if Z.eqb r 0 then (Qnum x + Qnum y * q) # dx else Qred (x + y).
 
 (* x * y; same value as Qmult *)
 Definition qmult' (x y : Q) : Q := if qz x || qz y then 0 else x * y.
@@ -248,13 +258,66 @@ Definition zmat_eqb (A B : zmat) : bool :=
 Definition zshape_ok (m n : nat) (A : zmat) : bool :=
   Nat.eqb (length A) m && forallb (fun r => Nat.eqb (length r) n) A.
 
+(* The same elimination on Bignums' BigZ (machine-word arithmetic under
+   vm_compute, ~50x faster than binary Z).  It is used only to FIND R and d;
+   they are converted back to Z and verified there with plain Z arithmetic, so
+   nothing about Bignums / Uint63 is trusted. *)
+Definition bz := BigZ.t_.
+Definition bmat := list (list bz).
+
+Fixpoint bpick (rows : bmat) : option (list bz * bmat) :=
+  match rows with
+  | [] => None
+  | r :: rest =>
+      match r with
+      | [] => None
+      | x :: _ =>
+          if BigZ.eqb x BigZ.zero then
+            match bpick rest with
+            | Some (p, others) => Some (p, r :: others)
+            | None => None
+            end
+          else Some (r, rest)
+      end
+  end.
+
+Definition belim (p prev : bz) (pr : list bz) (r : list bz) : list bz :=
+  match r with
+  | [] => []
+  | f :: fs =>
+      if BigZ.eqb f BigZ.zero then map (fun a => BigZ.div (BigZ.mul p a) prev) fs
+      else map2 (fun a b => BigZ.div (BigZ.sub (BigZ.mul p a) (BigZ.mul f b)) prev) fs pr
+  end.
+
+Fixpoint bareiss_big_loop (steps : nat) (prev : bz) (done todo : bmat) : option (bmat * bz) :=
+  match steps with
+  | O => match todo with [] => Some (done, prev) | _ => None end
+  | S s =>
+      match bpick todo with
+      | None => None
+      | Some (prow, rest) =>
+          match prow with
+          | [] => None
+          | p :: pr =>
+              bareiss_big_loop s p (map (belim p prev pr) done ++ [pr]) (map (belim p prev pr) rest)
+          end
+      end
+  end.
+
+Definition bareiss_big (n : nat) (N : zmat) : option (zmat * Z) :=
+  let aug := map2 (fun r e => r ++ e) N (zid n) in
+  match bareiss_big_loop n BigZ.one [] (map (map BigZ.of_Z) aug) with
+  | None => None
+  | Some (R, d) => Some (map (map BigZ.to_Z) R, BigZ.to_Z d)
+  end.
+
 (* (X, verified?) *)
 Definition qinv_with_flag (n : nat) (A : qmat) : qmat * bool :=
   let D := common_den A in
   let N := to_zmat D A in
-  match bareiss_loop n 1%Z 0%nat [] (map2 (fun r e => r ++ e) N (zid n)) with
+  match bareiss_big n N with
   | None => ([], false)
-  | Some (R, d, _) =>
+  | Some (R, d) =>
       let ok :=
         negb (Nat.eqb n 0) && negb (Z.eqb d 0) &&
         shape_ok n n A && zshape_ok n n R &&
@@ -272,6 +335,24 @@ Definition qinv_ok (n : nat) (A : qmat) : bool := snd (qinv_with_flag n A).
 (* the verified inverse: [] unless A * X = I exactly *)
 Definition qinv (n : nat) (A : qmat) : qmat :=
   let r := qinv_with_flag n A in if snd r then fst r else [].
+
+(* X if B * X = I exactly (and shapes fit), else [] -- for inverses obtained some
+   other way, e.g. (A^T)^-1 as the transpose of a verified A^-1 *)
+Definition qinv_checked (n : nat) (B X : qmat) : qmat :=
+  if shape_ok n n B && shape_ok n n X && qmat_eqb (qmul B X) (qid n) && negb (Nat.eqb n 0)
+  then X else [].
+
+(* the Z-only elimination, kept as a cross-check of the BigZ one *)
+Definition qinv_z (n : nat) (A : qmat) : qmat :=
+  let D := common_den A in
+  let N := to_zmat D A in
+  match bareiss_loop n 1%Z 0%nat [] (map2 (fun r e => r ++ e) N (zid n)) with
+  | None => []
+  | Some (R, d, _) =>
+      let sd := Z.sgn d in
+      let ad := match Z.abs d with Zpos p => p | _ => 1%positive end in
+      map (map (fun z => (sd * Zpos D * z)%Z # ad)) R
+  end.
 
 (* determinant of A (exact): d * (-1)^exchanges / D^n *)
 Definition qdet (n : nat) (A : qmat) : Q :=
@@ -335,3 +416,15 @@ Fixpoint failing_obligations (k : nat) (obs : list bool) : list nat :=
   | [] => []
   | b :: rest => if b then failing_obligations (S k) rest else k :: failing_obligations (S k) rest
   end.
+
+(* ---- self-test of the three inverses (BigZ Bareiss, Z Bareiss, Gauss-Jordan
+   over Q) and of the determinant on a matrix that needs a row exchange ------- *)
+Example listops_selftest :
+  let A : qmat := [[0; 2; 1#3]; [1#2; -1; 4]; [3; 5#7; 1]] in
+  (qinv_ok 3 A && qmat_eqb (qinv 3 A) (qinv_z 3 A) && qmat_eqb (qinv 3 A) (qinv_gj 3 A)
+   && qmat_eqb (qmul (qinv 3 A) A) (qid 3)
+   && Qeq_bool (qdet 3 A * qdet 3 (qinv 3 A)) 1
+   && Qeq_bool (qdet 3 A) (1013 # 42)
+   && qmat_eqb (qinv 3 [[1; 2; 3]; [2; 4; 6]; [0; 1; 1]]) []
+   && qmat_eqb (qinv_checked 3 (qtr 3 3 A) (qtr 3 3 (qinv 3 A))) (qinv 3 (qtr 3 3 A)))%bool = true.
+Proof. vm_compute. reflexivity. Qed.
